@@ -114,6 +114,11 @@ def _(rng):
         pw = tuple((int(rng.integers(0, 2 if mode == "wrap" else 3)), int(rng.integers(0, 2 if mode == "wrap" else 3))) for _ in range(nd))
         assert close(mat(M.pad(x, pw, mode=mode)), jnp.pad(jnp.array(x), pw, mode=mode)), f"pad {mode} {shp} {pw}"
         n += 1
+    # wider than one period (concrete extents): several periods of the image
+    for shp, pw in [((2,), ((3, 3),)), ((3, 2), ((4, 4), (0, 0))), ((2, 3), ((0, 0), (7, 7))), ((1, 3), ((2, 2), (4, 4)))]:
+        x = rng.normal(size=shp)
+        assert close(mat(M.pad(x, pw, mode="wrap")), jnp.pad(jnp.array(x), pw, mode="wrap")), f"pad wrap (several periods) {shp} {pw}"
+        n += 1
     return n
 
 
